@@ -235,6 +235,18 @@ class PhaseField(_Simu):
     ) -> None:
         return super().add_pressureLoad(nodes, magnitude, problemType, description)
 
+    def add_volumeLoad(
+        self,
+        nodes: _types.IntArray,
+        values: list,
+        unknowns: list[str],
+        problemType=ProblemTypes.elastic,
+        description="",
+    ):
+        return super().add_volumeLoad(
+            nodes, values, unknowns, problemType, description
+        )
+
     def add_neumann(
         self,
         nodes: _types.IntArray,
